@@ -531,11 +531,27 @@ func c11Unreadable(cases string, res *Result) {
 	os.WriteFile(filepath.Join(root, "first", "sub", "rel_up.twig"), []byte("a[{% include '../part.twig' ignore missing %}]b"), 0o644)
 	os.WriteFile(filepath.Join(root, "first", "sub", "rel_computed.twig"), []byte("a[{% include './' ~ 'bad.twig' ignore missing %}]b"), 0o644)
 	os.WriteFile(filepath.Join(root, "first", "abs_bad.twig"), []byte("a[{% include 'sub/bad.twig' ignore missing %}]b"), 0o644)
-	for _, paths := range [][]string{{filepath.Join(root, "first")}, {filepath.Join(root, "first"), second}} {
+	type mkLoader func() twig.Loader
+	first := filepath.Join(root, "first")
+	loaders := []mkLoader{
+		func() twig.Loader { return twig.NewFileSystemLoader([]string{first}) },
+		func() twig.Loader { return twig.NewFileSystemLoader([]string{first, second}) },
+		// the same loader inside chains: in front of a loader that has nothing, behind one, in front of a compiled-file loader
+		func() twig.Loader {
+			return twig.NewChainLoader([]twig.Loader{twig.NewFileSystemLoader([]string{first}), twig.NewArrayLoader(map[string]string{})})
+		},
+		func() twig.Loader {
+			return twig.NewChainLoader([]twig.Loader{twig.NewArrayLoader(map[string]string{}), twig.NewFileSystemLoader([]string{first})})
+		},
+		func() twig.Loader {
+			return twig.NewChainLoader([]twig.Loader{twig.NewFileSystemLoader([]string{first}), twig.NewCompiledLoader(second)})
+		},
+	}
+	for _, mk := range loaders {
 		eng := twig.New()
-		eng.RegisterLoader(twig.NewFileSystemLoader(paths))
+		eng.RegisterLoader(mk())
 		for _, name := range []string{"main.twig", "plain.twig", "sub/rel_bad.twig", "sub/rel_dir.twig", "sub/rel_up.twig", "sub/rel_computed.twig", "abs_bad.twig"} {
-			c := Case{"stream": "c11-unreadable", "template": name, "search paths": len(paths)}
+			c := Case{"stream": "c11-unreadable", "template": name, "loader": fmt.Sprintf("%T", mk())}
 			res.Hist["stream:c11-unreadable"]++
 			res.Evaluations++
 			out, err := eng.Render(name, map[string]interface{}{})
